@@ -431,6 +431,21 @@ class Gen:
             return ("pipe", sub(), ("contains", self.scalar(d - 1, vs)))
         if r < 0.90:
             x = rng.choice(["x", "y"])
+            if rng.random() < 0.15:
+                # which list object an operand of `,` hands back (the context's own, a variable's, a new one) decides
+                # whether the RHS results are kept: the recorded union-same-list behaviour, modelled by list_id
+                def operand():
+                    return rng.choice([("var", x), ("pipe", ("var", x), ("self",)), ("as", ("getkey", rng.choice(KEYS + ["zz"])), x, ("var", x)),
+                                       ("as", ("select", ("eq", lit(1), lit(2))), x, ("var", x)), ("as", lit(5), "z", ("var", x)), ("self",),
+                                       ("pipe", ("self",), ("self",)), ("var", "u"), ("pipe", ("var", x), ("length",)),
+                                       ("as", ("select", ("eq", lit(1), lit(2))), "z", ("pipe", ("var", x), ("self",))),
+                                       ("pipe", self.path(1), ("var", x))])
+                u = ("union", operand(), operand())
+                if rng.random() < 0.3:
+                    u = ("union", u, operand())
+                e = ("as", self.scalar(d - 1, vs), x, rng.choice([u, ("collect", u)]))
+                k = rng.random()
+                return ("map", e) if k < 0.25 else ("pipe", ("select", ("eq", lit(1), lit(2))), e) if k < 0.35 else e
             if rng.random() < 0.25:
                 # scoping: an inner binding of the same name must not leak into a sibling operand
                 inner = ("as", self.scalar(d - 1, vs + [x]), x, rng.choice([("var", x), ("collect", ("var", x)), self.expr(max(0, d - 2), vs + [x])]))
